@@ -200,6 +200,17 @@ func (c *FnCtx) runBody() {
 				continue // unreachable predecessor (e.g. recover)
 			}
 			ec := edgeC[[2]*ssa.BasicBlock{p, b}]
+			if pl := c.loops[p]; pl != nil && !pl.body[b] {
+				// the exit edge of loop pl's own head: the loop ran out (as opposed to a break out of its body)
+				if k := fmt.Sprintf("loopdone %d", pl.ord); c.watch[k] {
+					g := map[string]Val{}
+					for a, v := range st.ghost {
+						g[a] = v
+					}
+					g[k] = Val{T: "true", Ty: boolTy}
+					st = &blockState{heap: st.heap, reach: st.reach, ghost: g}
+				}
+			}
 			ins = append(ins, inEdge{p, ec, st})
 		}
 		if b == c.fn.Blocks[0] {
@@ -519,6 +530,14 @@ func (c *FnCtx) loopHead(b *ssa.BasicBlock, li *loopInfo, ins []loopEdge) {
 		if li.writes["ghost:"+k] {
 			c.ghost[k] = Val{T: c.fresh("ghost_"+k, c.sortOf(gv.Ty)), Ty: gv.Ty}
 		}
+	}
+	if k := fmt.Sprintf("loopdone %d", li.ord); c.watch[k] {
+		ng := map[string]Val{}
+		for a, v := range c.ghost {
+			ng[a] = v
+		}
+		ng[k] = Val{T: "false", Ty: boolTy}
+		c.ghost = ng
 	}
 	_ = preHeap
 	// 3. assume invariants in the havoced state
